@@ -77,6 +77,23 @@ CHECKS = {
              'send and call, also re-sending the same request object); accept / IdentityError / DeserializationError, request '
              'linking and call-order attribution of unique result tokens are compared with the model.',
         note='trusted: vmon/models/client_match.py; null-id elements inside arrays and non-JSON bodies are not judged'),
+    'C09': dict(
+        category='fault_enumeration', design_ref='DESIGN.md §3 C09',
+        technique='runtime monitor: scripted per-attempt outcomes + recording sleep shims (virtual clock) vs retry/backoff reference model',
+        text='Sessions of 1..3 requests (single / batch / notification) on one real sync or async client are driven through a '
+             'transport scripted with every outcome sequence of length n+2 for n in 0..2 (3, 4 sampled) over 6 outcome kinds, '
+             'under a grid of backoff families/parameters (caps below the first delay, factor 1, non-zero and negative jitter, '
+             'attempts 0), 4 codes sets x 4 exception sets and 4 strategy sources; the interleaved send / sleep event sequence '
+             '(arguments to 1e-9, positions, which sleep function) and the object reaching the caller are compared with the model.',
+        note='trusted: vmon/models/retry.py; the names time/asyncio inside pjrpc.client.retry are rebound to recording shims'),
+    'C19': dict(
+        category='fault_enumeration', design_ref='DESIGN.md §3 C19',
+        technique='runtime monitor: tracer-event automaton over scripted attempt outcomes incl. real task cancellation',
+        text='Requests of each kind are sent with 0..3 recording tracers and retry strategies of 0..3 attempts through a transport '
+             'scripted over 11 per-attempt outcomes (incl. BaseException, CancelledError raised by the transport, and cancelling '
+             'the client task while the transport is suspended); an automaton checks begin/completion pairing per attempt, '
+             'configuration order, payload identity, trace-context identity and the exception reaching the caller.',
+        note='trusted: vmon/models/retry.py for which attempts happen; probe tracers do not raise'),
 }
 
 NOT_BUILT_REASON = 'no check registered yet in this round (monitor under construction, see DESIGN.md §3)'
